@@ -192,7 +192,8 @@ def run_case(task):
 def run_multi(task):
     """Family C: several line-count blocks in one file (concrete expressions, symbolic content, an
     empty block among them): every block is judged on its own count."""
-    _fam, specs, want_sample = task
+    _fam, specs, want_sample = task[:3]
+    glue = len(task) > 3 and task[3]          # all blocks side by side on ONE line (single-segment contents)
     prog = driver.load_program()
     stats = PathStats()
     out = dict(violations=[], samples=[], obligations=0, cover={}, panic_paths=0)
@@ -204,6 +205,7 @@ def run_multi(task):
         bwcs = []
         infos = []
         line = 1
+        col0 = 0            # column offset of the next block on a glued line
         for bi, (expr, seg_spec) in enumerate(specs):
             head = tuple(b'/* <block name="b%d" line-count="' % bi) + tuple(expr) + tuple(b'">')
             if seg_spec is None:
@@ -221,17 +223,23 @@ def run_multi(task):
                     if k:
                         content.append(10)
                     content.extend(sg)
-                text = head + tuple(b' */') + tuple(content) + tuple(END_TAG)
+                endtag = tuple(END_TAG[:-1]) + ((32,) if glue and bi + 1 < len(specs) else (10,))
+                text = head + tuple(b' */') + tuple(content) + endtag
                 cstart = len(src) + len(head) + 3
                 cend = cstart + len(content)
                 tagline = line
                 src += list(text)
                 nl = len(segs) - 1
             blk = mk_block(prog, I, {'name': b'b%d' % bi, 'line-count': SString(tuple(expr), I.new_alloc())},
-                           (tagline, 4), (tagline, len(head)), (cstart, cend), (tagline, len(head) + 4), (tagline + nl, 1))
+                           (tagline, col0 + 4), (tagline, col0 + len(head)), (cstart, cend), (tagline, col0 + len(head) + 4),
+                           (tagline + nl, (col0 + len(head) + 4 + len(segs[0]) if (glue and segs) else 1)))
             bwcs.append(mk_bwc(prog, blk))
-            infos.append(dict(line=tagline, expr=bytes(expr).decode(), segs=segs))
-            line = tagline + nl + 1
+            infos.append(dict(line=tagline, col=col0 + 4, expr=bytes(expr).decode(), segs=segs))
+            if glue and seg_spec is not None and bi + 1 < len(specs):
+                col0 += len(text)
+            else:
+                line = tagline + nl + 1
+                col0 = 0
         holder.update(src=tuple(src), infos=infos)
         ctx = mk_context(prog, I, [(b'f.js', tuple(src), bwcs)])
         return run_validator(I, prog, 'LineCountValidator', ctx)
@@ -260,7 +268,7 @@ def run_multi(task):
             em = _re.match(r'^\s*(<=|>=|==|<|>)\s*\+?([0-9]+)\s*$', info['expr'])
             op, n = em.group(1), int(em.group(2))
             count = zsum([z3.If(zor([z3.Not(f_ws(b)) for b in sg]), 1, 0) if sg else z3.IntVal(0) for sg in info['segs']]) if info['segs'] else z3.IntVal(0)
-            mine = [v for v in vs if v['start'][0] == info['line']]
+            mine = [v for v in vs if v['start'][0] == info['line'] and v['start'][1] == info['col']]
             if len(mine) > 1:
                 viol(I, z3.BoolVal(True), 'extra-violations', 'more than one violation for one block')
             if mine:
@@ -292,7 +300,7 @@ def ref_multi(src):
         count = len([l for l in content.split('\n') if l.strip('\t\n\x0b\x0c\r ') != ''])
         ok = {'<': count < n, '<=': count <= n, '==': count == n, '>=': count >= n, '>': count > n}[op]
         if not ok:
-            out.append((s.count('\n', 0, m.start()) + 1, count, op, n))
+            out.append((s.count('\n', 0, m.start()) + 1, m.start() + 3 - (s.rfind('\n', 0, m.start()) + 1) + 1, count, op, n))
     return sorted(out)
 
 
@@ -300,7 +308,7 @@ def observe_multi(binary, src):
     r = run_scan(binary, {'f.js': src}, ['f.js'])
     if r['diags'] is None:
         return [] if r['code'] == 0 else dict(error=r['stderr'][-200:])
-    return sorted((d['range']['start']['line'], d['data']['actual'], d['data']['op'], d['data']['expected'])
+    return sorted((d['range']['start']['line'], d['range']['start']['character'], d['data']['actual'], d['data']['op'], d['data']['expected'])
                   for d in r['diags'].get('f.js', []) if d.get('code') == 'line-count')
 
 
@@ -346,7 +354,7 @@ def confirm(binary, v, idx):
         v['confirmed'] = obs != want
         if v['confirmed']:
             v['replay'] = save_replay(PROP, '%s-%d' % (v['role'], idx), {'f.js': src}, 'f.js',
-                                      'expected (line, actual, op, expected) %s ; %s' % (want, v['summary']), v)
+                                      'expected (line, column, actual, op, expected) %s ; %s' % (want, v['summary']), v)
         return v
     obs = observe(binary, src)
     want = ref_eval(src)
@@ -397,6 +405,9 @@ def main(tier):
             mt.append(('C', [(E(e1), segs), (E(e2), None)], True))
             mt.append(('C', [(E(e2), None), (E(e1), segs)], False))
             mt.append(('C', [(E(e1), segs), (E(e2), (0,)), (E(e1), (1,))], False))
+        # two and three one-line blocks side by side on one source line (their start tags share the line)
+        mt.append(('C', [(E(e1), (1,)), (E(e2), (1,))], True, True))
+        mt.append(('C', [(E(e2), (1,)), (E(e1), (0,)), (E(e2), (2,))], False, True))
     results += pmap(run_multi, mt)
     for r in results:
         agg.add(r)
